@@ -115,7 +115,7 @@ CHECKS["C18"] = dict(
 CHECKS["C20"] = dict(
   level="model_checking", design="§4 C20, spec/Concurrent.tla, spec/Trace_Concurrent.tla",
   technique="TLA+ model of N interleaved request machines (Call -> Chain -> Auth -> Parse -> Respond -> Return; switches for shared scratch values and for appending to the shared Middlewares slice) checked by TLC over all interleavings of 4 requests (Isolated, SharedReadOnly); the linearized event log of 16-64 goroutines driving one API and one Client validated by TLC (Trace_Concurrent) as a behaviour of that model; Go race detector on the same executions",
-  text="Rounds of 16-64 goroutines x 4 calls (GOMAXPROCS 1/4/16, yields in every call-back) go through one generated Client into one generated API (packed wire operations: parameters, JSON and raw bodies, a third each secured by a bearer scheme / an apiKey-in-header scheme / nothing with per-request unique credentials, 2 or 3 middlewares registered by append so that API.Middlewares has spare capacity); every leaf of every request and response is unique to its call; events are appended under one mutex with a global sequence number. TLC checks that every event is a step of its own request's machine, that the template visible to middlewares and handler is the request's own, that the authenticator that runs is the one of the request's operation and sees the request's own credential, parsed = sent and returned = responded per request. The binaries are built with -race; any report is a violation.",
+  text="Rounds of 16-64 goroutines x 4 calls (GOMAXPROCS 1/4/16, yields in every call-back) go through one generated Client into one generated API (packed wire operations: parameters, JSON and raw bodies, a third each secured by a bearer scheme / an apiKey-in-header scheme / nothing with per-request unique credentials, 2 or 3 middlewares registered by append so that API.Middlewares has spare capacity); every leaf of every request and response is unique to its call; next to every client call a raw GET matching no operation (unrouted path, with a NotFoundHandler in half of the rounds, or the spec-file route) is served and must be answered on its own (404 / the spec file); events are appended under one mutex with a global sequence number. TLC checks that every event is a step of its own request's machine, that the template visible to middlewares and handler is the request's own, that the authenticator that runs is the one of the request's operation and sees the request's own credential, parsed = sent and returned = responded per request. The binaries are built with -race; any report is a violation.",
   note="Goroutine schedules are sampled, not enumerated; the model enumerates the interleavings of 4 abstract requests. 'No unsynchronised access' is decided by the race detector, outside TLA+.")
 
 NOT_YET = {}
